@@ -313,11 +313,22 @@ Section Analyser.
 
   (* ---- the visitors, as functions of the (already built) visits of their sub-nodes ---- *)
 
-  (* visit_compound_name *)
-  Definition compound_body (n v : node) (c : ectx) (visit_v : M unit) : M unit :=
+  (* visit_compound_name; visit_slices = visit_slices_passed_over_by_name(node) *)
+  Definition compound_body (n v : node) (c : ectx) (visit_v visit_slices : M unit) : M unit :=
     bf <- get_and_verify_name n c ;;
     (if is_nameable v then ret tt else visit_v) ;;;
+    visit_slices ;;;
     update_results (snd bf, fst bf) c.
+
+  (* visit_slices_passed_over_by_name: the index / slice of every subscript on the spine of a nameable, outermost
+     first, through attributes, subscripts, stars and the callee of calls *)
+  Fixpoint spine_with (vis : node -> M unit) (m : node) {struct m} : M unit :=
+    match m with
+    | ESub v sl _ _ => vis sl ;;; spine_with vis v
+    | EAttr v _ _ _ | EStar v _ _ => spine_with vis v
+    | ECall f _ _ _ => spine_with vis f
+    | _ => ret tt
+    end.
 
   (* visit_Call; visit_args = the visits of the positional and keyword arguments *)
   Definition call_body (n : node) (args kws : list node) (visit_args : M unit) : M unit :=
@@ -391,15 +402,22 @@ Section Analyser.
   Fixpoint visit (n : node) {struct n} : M unit :=
     let vlist := fix vlist (l : list node) : M unit :=
                    match l with [] => ret tt | x :: r => visit x ;;; vlist r end in
+    let spine := fix spine (m : node) : M unit :=
+                   match m with
+                   | ESub v sl _ _ => visit sl ;;; spine v
+                   | EAttr v _ _ _ | EStar v _ _ => spine v
+                   | ECall f _ _ _ => spine f
+                   | _ => ret tt
+                   end in
     (* generic_visit of an assignment statement after registration / dispatch *)
     match n with
     (* ---- visit_Name ---- *)
     | EName _ c _ =>
       bf <- get_and_verify_name n c ;; update_results (snd bf, fst bf) c
     (* ---- visit_compound_name: Attribute / Subscript / Starred ---- *)
-    | EAttr v _ c _ | ESub v _ c _ | EStar v c _ => compound_body n v c (visit v)
+    | EAttr v _ c _ | ESub v _ c _ | EStar v c _ => compound_body n v c (visit v) (spine n)
     (* ---- visit_Call ---- *)
-    | ECall _ args kws _ => call_body n args kws (vlist args ;;; vlist kws)
+    | ECall f args kws _ => call_body n args kws (vlist args ;;; vlist kws ;;; spine f)
     (* ---- assignments ---- *)
     | SAssign ts v _ =>
       assign_body ts (Some v) (ret tt)
